@@ -281,6 +281,11 @@ def fitsButNotFinal (h : Hdr) (mtu : Nat) : Bool :=
   | some ml => ml + h.len ≤ mtu && !h.fin
   | none => false
 
+/-- "CONTINUE / ENDING segment without an SDU in progress": not a beginning segment, not a stand-alone
+acknowledgement, and nothing is being reassembled -/
+def orphanSegment (r : RecvWindow) (h : Hdr) : Bool :=
+  h.getMsgLen.isNone && r.remMsgLen == 0 && !h.isStandaloneAck
+
 /-- the mutating tail of `RecvWindow::accept_incoming` -/
 def RecvWindow.commit (r : RecvWindow) (h : Hdr) (pfx payload : List Nat) (rem now : Nat) :
     Except Fail RecvWindow :=
@@ -304,6 +309,7 @@ def RecvWindow.acceptIncoming (r : RecvWindow) (h : Hdr) (payload : List Nat) (m
   else if r.level == 0 then .error .invalidData                            -- window overrun (fix)
   else if h.getMsgLen.isSome && r.remMsgLen > 0 then .error .invalidData   -- new SDU inside an SDU (fix)
   else if fitsButNotFinal h mtu then .error .invalidData
+  else if orphanSegment r h then .error .invalidData                       -- continue / ending without an SDU (fix)
   else if r.startRem h.getMsgLen < payload.length then .error .invalidData
   else if !h.fin && !payload.isEmpty && r.startRem h.getMsgLen - payload.length == 0 then
     .error .invalidData                                                    -- length reached, not final (fix)
